@@ -258,8 +258,11 @@ Definition aoh_step (cmp : smethod) (attr : string) (x : kctx) (s : scan) (ie : 
   | NMap _ kvs =>
       match map_get kvs attr with
       | Some vn =>
-          do r <- scan_value cmp s (val_of_node vn) nc;
-          match r with Some s' => Ok s' | None => Ok (discard s nc) end
+          (* `scan_node in ele and ele[scan_node] is not None` *)
+          if is_none_node vn then Ok (discard s nc)
+          else
+            do r <- scan_value cmp s (val_of_node vn) nc;
+            match r with Some s' => Ok s' | None => Ok (discard s nc) end
       | None => Ok (discard s nc)
       end
   | _ => Ok (discard s nc)
@@ -273,8 +276,11 @@ Definition hoh_step (cmp : smethod) (attr : string) (data_kvs : list (node * nod
   | NMap _ kvs =>
       match map_get kvs attr with
       | Some vn =>
-          do r <- scan_value cmp s (val_of_node vn) nc;
-          match r with Some s' => Ok s' | None => Ok (discard s nc) end
+          (* `scan_node in ele and ele[scan_node] is not None` *)
+          if is_none_node vn then Ok (discard s nc)
+          else
+            do r <- scan_value cmp s (val_of_node vn) nc;
+            match r with Some s' => Ok s' | None => Ok (discard s nc) end
       | None => Ok (discard s nc)
       end
   | _ =>
